@@ -85,14 +85,36 @@ def rewrite_cluster_apply(src):
 
 SPEC = dict(
     id="C21",
-    level_text="TBD",
+    level_text=("Lean 4 theorems over an interleaving LTS (any number n of VerifyToken threads x one token mutator, every interleaving, clock ticks "
+                "and janitor runs anywhere): C21_full — after Revoke/Delete/RotateToken returned, no verification that starts afterwards authenticates "
+                "the old value — proved for every source configuration with a serialising single DB connection OR a generation-guarded cache insert; "
+                "C21_full_applies/C21_full_current re-check by `decide` that the facts factgen reads from the current source (SetMaxOpenConns(1), rows "
+                "held across the insert, generation guard yes/no, InvalidateCache after every mutator's SQL) provide one of them (today: only the single "
+                "connection); C21_full_witness is the stale-insert schedule when neither holds; C21_partial needs neither (no verifier holds a row when "
+                "the SQL runs). C21_authn_iff (issued, enabled, not expired) is proved only for a cache-hit path that re-checks expires_at; the CURRENT "
+                "source does not (C21_authn_expiry_witness, confirmed on the real code: an expired token authenticates from the cache for up to one cache "
+                "TTL) — C21_authn_iff_partial gives issued+enabled+less than one TTL past expiry for every configuration. The LTS is tied to the code by "
+                "forced schedules: every interleaving of <=3 verifiers x 1 mutator over 5+1 injected schedule points (direct and cluster-apply mode; "
+                "complete in thorough except RotateToken-direct with 3 verifiers, sampled) is executed on the real AuthManager/SQLite and replayed "
+                "through the LTS, including the steps observed BLOCKED on the pooled connection."),
     technique="Lean 4 invariant proof over an interleaving LTS (n verifiers x 1 mutator); regenerated structural facts; forced-schedule trace refinement against the real AuthManager",
     factgen=True,
+    exhaustive=False,
     clockify=["internal/auth/auth.go"],
     packages={"internal/verif/verifsched": "go/verifsched"},
     hooks={"internal/auth": "go/hooks/auth_c21"},
     rewrite=[("internal/auth/auth.go", rewrite_auth), ("internal/auth/cluster_apply.go", rewrite_cluster_apply)],
-    harnesses=[dict(name="c21", timeout=dict(quick=600, thorough=2400))],
-    trusted_base=[],
-    assumptions=[],
+    harnesses=[dict(name="c21", timeout=dict(quick=600, thorough=2700))],
+    trusted_base=[
+        "database/sql + mattn/go-sqlite3: a *sql.Rows keeps its pooled connection until Close; with SetMaxOpenConns(1) db.Exec waits for it (the harness OBSERVES this wait via db.Stats() and the model must agree, but the library is not modelled further)",
+        "sync.RWMutex critical sections and single SQL statements are atomic steps of the LTS",
+        "hash verification is abstracted to 'the stored hash verifies exactly one token value' (PBKDF2/bcrypt/sha256 collision freedom); the sha256 token_prefix is abstracted to the same value unless the row is `__legacy__`",
+        "one token row is modelled; other tokens only interact through whole-cache invalidation and eviction (pure removals)",
+        "the cluster-apply mode is driven through a harness RaftProposer that calls Apply*Token synchronously, as the FSM apply callback does; Raft itself is out of scope (C22)",
+        "schedule points are injected into overlay copies of auth.go / cluster_apply.go by pattern (props/C21.py); the virtual clock by clockify",
+    ],
+    assumptions=[
+        "one mutation of the token at a time (the theorems start from any invariant-satisfying state, so sequences of mutations compose)",
+        "goroutines other than VerifyToken callers and the mutator (last_used_at writer, janitor) never add cache entries",
+    ],
 )
